@@ -3,6 +3,7 @@ backend.  Creates / drops / calls real ffi.callback objects; reports raw address
 call, which Python function actually ran (decoded from the result) and whether the value is exact."""
 import gc
 import os
+import struct
 import subprocess
 import sys
 
@@ -22,7 +23,8 @@ ffi.cdef("""
     long c29_sizeof_closure(void);
     long c29_pagesize(void);
 """)
-SIGS = ["int(int)", "long long(int, long long)", "double(double)", "int(char32_t)", "int(wchar_t)", "int(_Bool)"]
+SIGS = ["int(int)", "long long(int, long long)", "double(double)", "int(char32_t)", "int(wchar_t)", "int(_Bool)",
+        "int(int)", "int(int)"]        # 6: with error=-(1000+fid); 7: with that error value and an onerror handler
 BAD_RAW = {3: [0x110000, 0xFFFFFFFF, 0x7FFFFFFF], 4: [0x110000, 0xFFFFFFFF, 0x80000000], 5: [2, 255, 128]}
 
 
@@ -35,9 +37,54 @@ def helper():
     return lib
 
 
+LIVE = {}            # h -> (cb, sig, cyclic): the ONLY references to the callbacks
+CTRL = dict(fid=None)
+JUNK = struct.pack("i", -777)
+
+
+class SelfDrop(Exception):
+    pass
+
+
+def on_error(exc, val, tb):
+    CTRL["onerror"] = CTRL.get("onerror", 0) + 1
+
+
+def cb_kwargs(fid, sig):
+    if sig == 6:
+        return dict(error=-(1000 + fid))
+    if sig == 7:
+        return dict(error=-(1000 + fid), onerror=on_error)
+    return {}
+
+
+def selfdrop(fid, x):
+    """runs INSIDE the callback fid: drops the callback itself (its last reference), collects, optionally creates
+    a new callback (which takes over the closure just freed), allocates 4-tuples, then returns or raises"""
+    c = dict(CTRL)
+    CTRL["fid"] = None
+    CTRL["ran"] = fid
+    ent = LIVE.pop(c["h"])
+    del ent
+    gc.collect()                       # frees it now when it sits in a reference cycle (tp_clear, then dealloc)
+    if c["new"] is not None:
+        h2, fid2, sig2 = c["new"]
+        cb2 = ffi.callback(SIGS[sig2], make_fn(fid2, sig2, None), **cb_kwargs(fid2, sig2))
+        LIVE[h2] = (cb2, sig2, False)
+        CTRL["new_addr"] = int(ffi.cast("uintptr_t", cb2))
+        del cb2
+    none = None
+    CTRL["junk"] = [(x, fid, JUNK, none) for _ in range(8)]
+    if c["mode"] == "raise":
+        raise SelfDrop()
+    return fid * 7919 + x
+
+
 def make_fn(fid, sig, holder):
-    if sig == 0:
+    if sig in (0, 6, 7):
         def fn(x, fid=fid, holder=holder):
+            if CTRL["fid"] == fid:
+                return selfdrop(fid, x)
             return fid * 7919 + x
     elif sig == 1:
         def fn(a, b, fid=fid, holder=holder):
@@ -53,6 +100,8 @@ def make_fn(fid, sig, holder):
 
 def invoke(lib, cb, sig, x, route):
     """-> (fid that ran, exact?)"""
+    if sig in (6, 7):
+        sig = 0
     if sig == 0:
         if route == "c":
             r = lib.c29_call_i(cb, x)
@@ -163,7 +212,7 @@ def main(payload):
     geom = dict(blocksize=int(lib.c29_sizeof_closure()), pagesize=int(lib.c29_pagesize()))
     if "bulk" in payload:
         return run_bulk(payload, lib, geom)
-    live = {}          # h -> (cb, sig, cyclic)
+    live = LIVE        # h -> (cb, sig, cyclic)
     outs = []
     for op in payload["ops"]:
         k = op[0]
@@ -171,9 +220,9 @@ def main(payload):
             _, h, fid, sig, cyc = op
             holder = [] if cyc else None
             try:
-                cb = ffi.callback(SIGS[sig], make_fn(fid, sig, holder))
-            except MemoryError:
-                outs.append(["err", "MemoryError"])
+                cb = ffi.callback(SIGS[sig], make_fn(fid, sig, holder), **cb_kwargs(fid, sig))
+            except Exception as e:         # (MemoryError: the allocator is exhausted; anything else is reported too)
+                outs.append(["err", type(e).__name__])
                 continue
             if cyc:
                 holder.append(cb)          # function -> holder -> callback -> infotuple -> function
@@ -207,6 +256,23 @@ def main(payload):
             except Exception as e:
                 outs.append(["err", type(e).__name__])
             del cb
+        elif k == "selfdrop":
+            # the callback is entered FROM C through its bare address (no cdata reference on any stack) and drops
+            # itself while it runs
+            _, h, x, mode, route, new, fid = op
+            cb, sig, cyc = live[h]
+            addr = int(ffi.cast("uintptr_t", cb))
+            del cb
+            CTRL.update(fid=fid, h=h, mode=mode, new=new, ran=-1, new_addr=0)
+            sys.stderr.flush()
+            try:
+                fp = ffi.cast("int(*)(int)", addr)
+                r = lib.c29_call_i(fp, x) if route == "c" else fp(x)
+                outs.append(["selfdrop", CTRL["ran"], r, CTRL["new_addr"], h in live])
+            except Exception as e:
+                outs.append(["err", type(e).__name__])
+            CTRL["fid"] = None
+            CTRL["junk"] = None
         elif k == "call":
             _, h, x, route = op
             cb, sig, cyc = live[h]
